@@ -11,3 +11,8 @@ impl SpanId {
         ensures r.0 != 0,
     { unimplemented!() }
 }
+
+// SpanId derives Hash + Eq over its u64: a deterministic hash consistent with equality (vstd needs
+// this stated to give HashMap<SpanId, _> its map semantics).  TRUSTED.
+pub axiom fn axiom_spanid_key_model()
+    ensures vstd::std_specs::hash::obeys_key_model::<SpanId>();
